@@ -1,0 +1,15 @@
+//go:build verif
+
+package veriflaws
+
+// Recursive specification functions over slices.  Functions whose name starts
+// with "Rec" are treated by govc as uninterpreted symbols with one-step
+// unfolding at every call site.
+
+// RecFoldL is the left fold of the first n elements of s.
+func RecFoldL[A, B any](s []A, n int, zero B, f func(B, A) B) B {
+	if n <= 0 {
+		return zero
+	}
+	return f(RecFoldL(s, n-1, zero, f), s[n-1])
+}
